@@ -2,8 +2,10 @@
    outside (no program counters, no runner variables):
 
      members : the step's processes (disposition, whether/with what code they can exit on their own)
-     history : which signal reached the runner while the step was running (if any),
-               which after the main process had been reaped, who exited on its own
+     history : which event happened while the step was running (SIGTERM reached the runner, the
+               configured timeout expired), which signal reached the runner after the main process
+               had been reaped, who exited on its own, whether the step's process group failed to
+               come up within the handshake timeout
      obs     : how the runner ended, whether the main process was reaped, who is
                still alive, which signals the runner sent to the group
 
@@ -47,7 +49,9 @@ Definition cut_ok (ms : list member) (h : history) (o : obs) : Prop :=
    the runner sends nothing to the group and does not die from a signal; nobody
    is dead except by its own exit; if the runner exits, the main process exited
    on its own and was reaped, and the status is the main process's exit code
-   (124 if the alarm fired after the step had already ended) *)
+   (124 if the alarm fired after the step had already ended); when the process group
+   did not come up in time the runner reports that as a failure: the main process's
+   code if that is not 0, else 1 *)
 Definition uncut_ok (ms : list member) (h : history) (o : obs) : Prop :=
   length (o_alive o) = length ms /\
   o_kills o = [] /\
@@ -56,7 +60,8 @@ Definition uncut_ok (ms : list member) (h : history) (o : obs) : Prop :=
   (forall c, o_result o = RExit c ->
      o_main o = MReaped /\
      exists m ms' k, ms = m :: ms' /\ m_early m = Some k /\ nth 0 (h_self h) false = true /\
-       ((h_late h <> Some SIGALRM /\ c = k mod 256) \/ (h_late h = Some SIGALRM /\ c = 124))).
+       if h_slow h then c <> 0 /\ (k mod 256 <> 0 -> c = k mod 256)
+       else (h_late h <> Some SIGALRM /\ c = k mod 256) \/ (h_late h = Some SIGALRM /\ c = 124)).
 
 Definition spec (ms : list member) (h : history) (o : obs) : Prop :=
   match h_event h with
@@ -131,7 +136,8 @@ Definition uncut_okb (ms : list member) (h : history) (o : obs) : bool :=
       | MReaped, m :: _ =>
           match m_early m with
           | Some k => nth 0 (h_self h) false &&
-                      (if opt_is (h_late h) SIGALRM then c =? 124 else c =? k mod 256)
+                      (if h_slow h then negb (c =? 0) && ((k mod 256 =? 0) || (c =? k mod 256))
+                       else if opt_is (h_late h) SIGALRM then c =? 124 else c =? k mod 256)
           | None => false
           end
       | _, _ => false
